@@ -402,6 +402,16 @@ class ObjectBase(EntityContainer):
         if "property_group_type" not in kwargs and "Property Group Type" not in kwargs:
             kwargs["property_group_type"] = "Multi-element"
 
+        properties = kwargs.get("properties")
+        if not on_file and properties is not None:
+            # a group lists data of its own object (stored groups are read as they are)
+            held = [child.uid for child in self.children if isinstance(child, Data)]
+            for prop in properties:
+                if (uuid.UUID(prop) if isinstance(prop, str) else prop) not in held:
+                    raise ValueError(
+                        f"Property '{prop}' is not a data child of object '{self.name}'."
+                    )
+
         prop_group = PropertyGroup(self, name=name, on_file=on_file, uid=uid, **kwargs)
 
         return prop_group
